@@ -107,6 +107,10 @@ extern int mpt_text_set(MPT_STRUCT(text) *tx, const char *name, MPT_INTERFACE(co
 		}
 		if ((type = mpt_text_pointer_typeid()) > 0
 		 && (len = src->_vptr->convert(src, type, &from)) >= 0) {
+			/* assignment to itself */
+			if (len && from == tx) {
+				return 0;
+			}
 			mpt_text_fini(tx);
 			mpt_text_init(tx, len ? from : 0);
 			return 0;
@@ -132,6 +136,10 @@ extern int mpt_text_set(MPT_STRUCT(text) *tx, const char *name, MPT_INTERFACE(co
 		}
 		if ((type = mpt_text_pointer_typeid()) > 0
 		 && (len = src->_vptr->convert(src, type, &from)) >= 0) {
+			/* assignment to itself */
+			if (len && from == tx) {
+				return 0;
+			}
 			mpt_text_fini(tx);
 			mpt_text_init(tx, from);
 			return 0;
